@@ -202,7 +202,9 @@ type Resp struct {
 	Upstream []*UpstreamReq // proxy only
 	// envoy
 	OkHeaders map[string]string
-	ParseErr  error
+	// EnvoyMixed is set when the check response says OK but carries a denied_response
+	EnvoyMixed string
+	ParseErr   error
 }
 
 func (r *Req) raw() []byte {
@@ -325,13 +327,19 @@ func (a *Apps) DoEnvoy(r *Req) *Resp {
 
 	out := &Resp{Header: http.Header{}}
 
-	if ok := resp.GetOkResponse(); ok != nil && resp.GetStatus().GetCode() == 0 {
+	// Envoy's ext_authz filter decides by the status alone: code OK (0, also when the status is absent) lets the request
+	// pass whatever response variant is attached; only then the ok_response is consulted for headers
+	if resp.GetStatus().GetCode() == 0 {
 		out.Allowed = true
 		out.Status = http.StatusOK
 		out.OkHeaders = map[string]string{}
 
-		for _, h := range ok.GetHeaders() {
+		for _, h := range resp.GetOkResponse().GetHeaders() {
 			out.OkHeaders[h.GetHeader().GetKey()] = h.GetHeader().GetValue()
+		}
+
+		if d := resp.GetDeniedResponse(); d != nil {
+			out.EnvoyMixed = fmt.Sprintf("status OK with a denied_response (http status %d)", d.GetStatus().GetCode())
 		}
 
 		return out
